@@ -351,17 +351,17 @@ def classify_build_failure(log):
 WIT_TR = G.TR_SRC
 
 WITNESSES = [
-    dict(name="qualified-explicit-inst", sig=KF_QUAL, files={
+    dict(name="qualified-explicit-inst", sig=KF_QUAL, expect="1", files={
         "p0/p0.go": "package p0\n\nfunc G[T any](x T) int { return 1 }\n",
         "main.go": 'package main\n\nimport "verifc04/p0"\n\nfunc A[T any](x T) int { return p0.G[[]T](nil) }\n\nfunc main() { println(A[int](1)) }\n'},
          control={"main.go": 'package main\n\nfunc G[T any](x T) int { return 1 }\n\nfunc A[T any](x T) int { return G[[]T](nil) }\n\nfunc main() { println(A[int](1)) }\n'}),
-    dict(name="local-type-arg-mentions-param", sig=KF_LOCALARG, files={
+    dict(name="local-type-arg-mentions-param", sig=KF_LOCALARG, expect="false true", files={
         "main.go": "package main\n\nfunc G[T any]() any { var z T; return z }\n\nfunc A[X any]() any {\n\ttype L struct{ x X }\n\treturn G[L]()\n}\n\n"
                    "func main() {\n\ta := A[int]()\n\tb := A[string]()\n\tprintln(a == b, a == a)\n}\n"}),
-    dict(name="local-type-arg-closed", sig=KF_LOCALARG, files={
+    dict(name="local-type-arg-closed", sig=KF_LOCALARG, expect="false true", files={
         "main.go": "package main\n\nfunc G[T any]() any { var z T; return z }\n\nfunc A[X any]() any {\n\ttype L struct{ n int }\n\treturn G[L]()\n}\n\n"
                    "func main() {\n\ta := A[int]()\n\tb := A[string]()\n\tprintln(a == b, a == a)\n}\n"}),
-    dict(name="local-type-composite", sig=KF_LOCALCOMP, files={
+    dict(name="local-type-composite", sig=KF_LOCALCOMP, expect="2", files={
         "main.go": "package main\n\nfunc A[X any]() int {\n\ttype L struct{ n int }\n\ts := []L{{1}, {2}}\n\treturn len(s)\n}\n\nfunc main() { println(A[int]()) }\n"}),
 ]
 
@@ -372,7 +372,7 @@ def witness_stream(ctx):
     def one(w):
         d = os.path.join(ctx.work, "wit_" + w["name"])
         C.write_go_program(d, w["files"], module=G.MOD)
-        rc, out, err = C.sh2(["go", "run", "."], cwd=d, env=C.goenv(), timeout=900)
+        rc, err = 0, w["expect"]         # what native Go prints (verified once with go run; the programs are fixed)
         rc2, log = C.gopherjs_build(d, timeout=900)
         got = None
         if rc2 == 0:
